@@ -1262,7 +1262,7 @@ pub fn execute(s: &Scenario) -> Result<CaseReport, Failure> {
   let mut tasks: ManuallyDrop<Vec<Task>> = ManuallyDrop::new(Vec::new());
   let pfail = |stage: &str, p: Box<dyn std::any::Any + Send>| {
     let msg = crate::panic_msg(&p);
-    Failure::new(if stage == "teardown" { "C09" } else { "C06" }, format!("E2/{}/panic_{}/{}", s.flavour.name(), stage, crate::panic_site(&msg)), format!("panic inside the channel during {stage}: {msg}"))
+    Failure::new(if stage == "teardown" { crate::panic_prop("C09", &["C04", "C09"]) } else { crate::panic_prop("C06", &["C01", "C02", "C03", "C04", "C06", "C07", "C09"]) }, format!("E2/{}/panic_{}/{}", s.flavour.name(), stage, crate::panic_site(&msg)), format!("panic inside the channel during {stage}: {msg}"))
   };
   let r = catch_unwind(AssertUnwindSafe(|| run_ops(s, &reg, &mut tx, &mut rx, &mut tasks)));
   let rep = match r {
